@@ -26,7 +26,8 @@ from ..driver import Driver, Outcome, blob_data
 PROP = 'C16'
 LEVEL = 'exploration'
 RULE = ('a short seeded history builds an image (optionally written and reopened so that files live on the original image; files added afterwards '
-        'are pending); then 1-4 reader clients and 0-3 noise clients run scripts that a seeded scheduler interleaves call by call; each reader '
+        'are pending; in 15% of level-3/4 runs files are split into several extents through the guarded threshold hook; in half of the runs all '
+        'streams are opened first, an extraction happens, and only then are they entered); then 1-4 reader clients and 0-3 noise clients run scripts that a seeded scheduler interleaves call by call; each reader '
         'observation (returned bytes, counts, positions) is compared with io.BytesIO(content) executing the same script, every whole-file '
         'extraction with its content; single-client configurations run separately (30% of runs) so that interference findings do not mask plain '
         'stream bugs; non-trivial: >= 2 clients touching the shared file object between two reads of one stream, or (single client) >= 4 stream '
